@@ -281,7 +281,9 @@ def hints():
 
 def discharge(ob, both=False, use_cvc5=True):
     """z3 (short) -> z3 on the arithmetic generalisation -> cvc5 -> z3 (long).  Only unsat = discharged."""
-    h = hints().get(getattr(ob, "name", None) or "")
+    nm = getattr(ob, "name", None) or ""
+    # path-specific hint first (the same obligation name occurs once per path), then the hint of the name
+    h = hints().get(nm + "|" + "/".join(getattr(ob, "trace", None) or [])) or hints().get(nm)
     first_ms = 2000
     if h:
         zt = h.get("per_backend", {}).get("z3", h["max_time"] if set(h["backends"]) == {"z3"} else 0.0)
